@@ -26,6 +26,7 @@ entry: <kid>.<n> = the n-th tsid ever issued for series key kid; part: entry,ent
 engine histories (OG.C13.Store):
   eopen <i> | emk <db> <rp> <shard> <index> | ewrite <shard> <mst> <series> <t> <v> | eflush |
   edropmst <db> <mst> <shard,shard> | edroprp <db> <rp> | edropdb <db> | erestart <shard,shard|->   → ok
+  edropseries <db> <mst> <series> → ok shard=n,…;  embegin | emend <shard> → ok;  epurge → ok | err parts-in-merge;  eseries <shard> <mst> → keys s,s
   edump <shard> <mst> → rows s:t:v|… | notloaded;  eloaded → loaded db/rp/index|shard/id,…;  etree → tree data|wal/db[/rp/index|shard/id],…
 pred: RPN over `;` — `-` (none), eq:k:v, neq:k:v, re:k:a+b, nre:k:a+b, and, or.
 -/
@@ -217,6 +218,29 @@ def storeStep (d : DSt) : List String → Option (DSt × String)
   | ["erestart", ids] =>
     match parseNatList ids with
     | some l => some ({ d with store := d.store.restart l }, "ok")
+    | none => some (d, "bad-op")
+  | ["edropseries", db, mst, s] =>
+    match s.toNat? with
+    | some s' =>
+      let cnt := (d.store.dropCount db mst s').map fun (i, n) => toString i ++ "=" ++ toString n
+      some ({ d with store := d.store.dropSeries db mst s' }, "ok " ++ String.intercalate "," (cnt.foldr insertS []))
+    | none => some (d, "bad-op")
+  | ["embegin", id] =>
+    match id.toNat? with
+    | some i => some ({ d with store := d.store.setBusy i true }, "ok")
+    | none => some (d, "bad-op")
+  | ["emend", id] =>
+    match id.toNat? with
+    | some i => some ({ d with store := d.store.setBusy i false }, "ok")
+    | none => some (d, "bad-op")
+  | ["epurge"] =>
+    some ({ d with store := d.store.purge }, if d.store.purgeRefused then "err parts-in-merge" else "ok")
+  | ["eseries", id, mst] =>
+    match id.toNat? with
+    | some i =>
+      match d.store.seriesOf i mst with
+      | some ks => some (d, "keys " ++ String.intercalate "," (ks.map toString))
+      | none => some (d, "notloaded")
     | none => some (d, "bad-op")
   | ["edump", id, mst] =>
     match id.toNat? with
